@@ -69,6 +69,9 @@ class ParanoiaMode:
             elif rowshape == 2:
                 rows = B.ctx.new_list([B.ctx.new_list([Leaf(f"{k}.row0.col{cidx}") for cidx in range(5)]),
                                        B.ctx.new_list([Leaf(f"{k}.row1.col0")])])
+            elif B.concrete:
+                rows = B.ctx.new_list([B.ctx.new_list([Leaf(f"{k}.rowj.col{cidx}") for cidx in range(4)])
+                                       for _ in range(B.int(f"{k}_nrows", 0, 2 ** 31) % 4)])
             else:
                 j = z3.Int(f"{k}_j")
                 n = B.int(f"{k}_nrows", 0, 2 ** 31)
